@@ -64,7 +64,8 @@ class C11(object):
                          'switch.zero_tolerance_requested',
                          'decl.rejected_again_on_a_second_attempt',
                          'switch.failing_period_traced',
-                         'reserved_token_in_expression.judged')
+                         'reserved_token_in_expression.judged',
+                         'decl.two_candidate_suppliers_one_built_without_F')
 
     def n_cases(self, tier):
         self._names = all_reserved()
@@ -113,6 +114,9 @@ class C11(object):
             text = G.render(spec)
             return {'kind': 'contraction', 'spec': spec, 'text': text, 'tol': tol,
                     'reduction': rng.random() < 0.5}
+        if m == 9 and (idx // 10) % 3 == 0:
+            # two candidate suppliers, one of them built with has_F=False (constructor arguments away from their defaults)
+            return {'kind': 'decl', 'which': 'two_suppliers_one_without_F', 'n_extra': rng.randint(0, 2)}
         return {'kind': 'decl', 'which': rng.choice(['dup_country', 'dup_sector', 'dunder_local', 'dunder_sector',
                                                       'no_supplier', 'two_suppliers', 'xflow_no_ext',
                                                       'xsupplier_no_ext', 'dunder_local_late']),
@@ -388,6 +392,10 @@ class C11(object):
                 elif which == 'two_suppliers':
                     s2 = Sector(ca, 'BUS2', 'second supplier')
                     s2.AddVariable('SUP_GOOD', 'supply', '')
+                elif which == 'two_suppliers_one_without_F':
+                    s2 = Sector(ca, 'BUS2', 'second supplier, holds no financial assets', has_F=False)
+                    s2.AddVariable('SUP_GOOD', 'supply', '')
+                    rec.count('decl.two_candidate_suppliers_one_built_without_F')
                 elif which in ('xflow_no_ext', 'xsupplier_no_ext'):
                     us = Country(mod, 'US', 'US', currency='USD')
                     gov2 = ConsolidatedGovernment(us, 'GOV', 'Gov')
